@@ -479,7 +479,34 @@ def expr_part(case, res):
     boot.reset_process_state(0, 0.0)
     fxa = fixtures.make('pA', tag='one')
     fxb = fixtures.make('pB', tag='two')
-    exprs = [
+    # the same with a finished execution of pA (queries that filter by a
+    # final state take other paths)
+    fxa2 = fixtures.make('pA', tag='three', wf_state='SUCCESS',
+                         task_state='SUCCESS', action_state='SUCCESS')
+    foreign = [fxa['execution']['id'], fxa['task']['id'],
+               fxa['sub_execution']['id'], fxa2['execution']['id'],
+               fxa2['task']['id'], fxa2['sub_execution']['id']]
+    shapes = []
+    for fx in (fxa, fxa2):
+        eid = fx['execution']['id']
+        for rec in ('true', 'false'):
+            for st in ('null', "'SUCCESS'", "'ERROR'", "'RUNNING'",
+                       "'CANCELLED'", "'SKIPPED'", "'IDLE'"):
+                for flat in ('true', 'false'):
+                    shapes.append("<%% tasks('%s', %s, %s, %s).select($.id) "
+                                  "%%>" % (eid, rec, st, flat))
+        for st in ('null', "'SUCCESS'", "'RUNNING'"):
+            shapes.append("<%% executions('%s', null, %s).select($.id) %%>"
+                          % (eid, st))
+            shapes.append("<%% executions(null, '%s', %s).select($.id) %%>"
+                          % (eid, st))
+            shapes.append("<%% executions(null, null, %s).select($.id) %%>"
+                          % st)
+        shapes.append("{{ tasks('%s', false, 'SUCCESS') | "
+                      "map(attribute='id') | list }}" % eid)
+        shapes.append("{{ tasks('%s', true, 'SUCCESS', true) | "
+                      "map(attribute='id') | list }}" % eid)
+    exprs = shapes + [
         '<% executions().select($.id) %>',
         '<% executions(null, null, null, null).select($.id) %>',
         "<%% executions('%s').select($.id) %%>" % fxa['execution']['id'],
@@ -511,8 +538,7 @@ def expr_part(case, res):
         res['monitor_evaluations']['tenant-isolation'] += 1
         res['keys'].append(['expr', cell])
         s = json.dumps(val, default=str)
-        if fxa['execution']['id'] in s or fxa['task']['id'] in s or \
-                fxa['sub_execution']['id'] in s:
+        if any(x in s for x in foreign):
             viol(res, 'expression-reads-foreign-directly',
                  '%s returns executions / tasks of project pA' % cell,
                  cell=cell, who=who)
